@@ -326,6 +326,36 @@ static void copy_check(Obj *o, int k, vf_rng *r, std::string &desc)
 	c->release();
 	same(src, snap(o->obj(), o->kind), -1, "cxx:copy:original-follows-copy", ctx);
 }
+
+/* "" assignment from a source that is no sibling: refused and nothing changes */
+static void foreign_check(Obj *o, int k, vf_rng *r, std::string &desc)
+{
+	Snap before = snap(o->obj(), o->kind);
+	int how = (int) vf_below(r, 3), ret;
+	std::string ctx;
+	if (how == 0) {
+		int ok = (int) ((k + 1 + vf_below(r, NKinds - 1)) % NKinds);
+		Obj *other = make(ok);
+		std::string tmp;
+		set_text(other, ok, r, tmp);
+		ctx = std::string(o->kind) + "::set_property(\"\", " + other->kind + ")";
+		vf_log("%s", ctx.c_str());
+		vf_at("object::set_property");
+		ret = o->obj().set_property("", &other->conv());
+		other->release();
+	} else {
+		static const char *texts[] = { "some text", "1", "red", "0.5 0.5" };
+		const char *txt = texts[vf_below(r, 4)];
+		ctx = std::string(o->kind) + "::set(\"\", \"" + txt + "\")";
+		vf_log("%s", ctx.c_str());
+		vf_at("object::set");
+		ret = o->obj().set("", txt, 0) ? 0 : -1;
+	}
+	vf_count("monitor:foreign-source-assignments", 1);
+	desc += " foreign\"\"";
+	if (ret < 0) { same(before, snap(o->obj(), o->kind), -1, "cxx:copy:refused-modified", ctx); vf_count("foreign:refused", 1); }
+	else vf_count("foreign:accepted", 1);
+}
 static void case_objects(vf_rng *r)
 {
 	int k = (int) vf_below(r, NKinds), steps = vf_range(r, 4, 20);
@@ -333,7 +363,8 @@ static void case_objects(vf_rng *r)
 	std::string desc = std::string(o->kind) + ":";
 	vf_fp_u64(k);
 	for (int s = 0; s < steps; s++) {
-		if (vf_chance(r, 1, 4)) copy_check(o, k, r, desc);
+		if (vf_chance(r, 1, 8)) foreign_check(o, k, r, desc);
+		else if (vf_chance(r, 1, 4)) copy_check(o, k, r, desc);
 		else set_text(o, k, r, desc);
 	}
 	o->release();
@@ -375,11 +406,11 @@ static void populate(Obj *o, int k, unsigned mask, int variant)
 		else o->obj().set(n, nums[variant][i], 0);
 	}
 }
-#define NROUTES 6
+#define NROUTES 7
 static uint64_t assign_count() { return (uint64_t) NKinds * NROUTES * 16; }
 static void case_assign(uint64_t idx)
 {
-	static const char *route_name[NROUTES] = { "operator=", "constructor(base *)", "clone()", "set_property(\"\", object)", "set_property(NULL, object)", "operator= (self)" };
+	static const char *route_name[NROUTES] = { "operator=", "constructor(base *)", "clone()", "set_property(\"\", object)", "set_property(NULL, object)", "operator= (self)", "object::set(const object &)" };
 	unsigned tmask = idx % 4, smask = (idx / 4) % 4;
 	int route = (int) ((idx / 16) % NROUTES), k = (int) (idx / 16 / NROUTES);
 	Obj *src = make(k), *dst = 0;
@@ -405,9 +436,16 @@ static void case_assign(uint64_t idx)
 		int ret = dst->obj().set_property(route == 3 ? "" : 0, &src->conv());
 		if (ret < 0) { done = false; vf_count("assign:refused", 1); }   /* layout::line with "": see notes */
 		break; }
-	default:
+	case 5:
 		dst = make(k); populate(dst, k, smask, 0);
 		dst->assign_from(dst);
+		break;
+	default:
+		/* property-wise transfer on a target that was configured before */
+		dst = make(k); populate(dst, k, tmask, 1);
+		vf_at("object::set(const object &)");
+		dst->obj().set(src->obj(), 0);
+		vf_count("object::set(object)", 1);
 		break;
 	}
 	vf_count("assign:routes", 1);
@@ -417,6 +455,15 @@ static void case_assign(uint64_t idx)
 		bool eq = d.size() == s0.size();
 		for (size_t i = 0; eq && i < d.size(); i++) eq = d[i] == s0[i];
 		if (!eq && !vf_known("cxx:assign:self-assignment")) same(s0, d, -1, "cxx:assign:self-assignment", ctx);
+		vf_count("monitor:assignments-compared", 1);
+	}
+	else if (done && route == 6) {
+		/* property-wise transfer: own key */
+		Snap d = snap(dst->obj(), dst->kind), s1 = snap(src->obj(), src->kind);
+		same(s0, s1, -1, "cxx:assign:source-changed", ctx);
+		bool eq = d.size() == s0.size();
+		for (size_t i = 0; eq && i < d.size(); i++) eq = d[i] == s0[i];
+		if (!eq && !vf_known("cxx:assign:object-set-unequal")) same(s0, d, -1, "cxx:assign:object-set-unequal", ctx);
 		vf_count("monitor:assignments-compared", 1);
 	}
 	else if (done) {
